@@ -829,6 +829,7 @@ func (env *Environment) runTasksAsHooks(hooksToTrigger task.Tasks) (errorMap map
 	}
 
 	timeoutCh := make(chan string)
+	quitCh := make(chan struct{}) // closed if the hooks could not be triggered
 	hookTimers := make(map[string]*time.Timer)
 
 	for _, hook := range hooksToTrigger {
@@ -845,7 +846,10 @@ func (env *Environment) runTasksAsHooks(hooksToTrigger task.Tasks) (errorMap map
 		tid := hook.GetTaskId()
 		hookTimers[tid] = time.AfterFunc(timeout,
 			func() {
-				timeoutCh <- tid
+				select {
+				case timeoutCh <- tid:
+				case <-quitCh:
+				}
 			})
 	}
 
@@ -856,6 +860,9 @@ func (env *Environment) runTasksAsHooks(hooksToTrigger task.Tasks) (errorMap map
 
 		for {
 			select {
+			case <-quitCh:
+				doneCh <- struct{}{}
+				return
 			case tid := <-timeoutCh:
 				log.WithField("taskId", tid).Debug("incoming hook timeout")
 				thisHook := hooksToTrigger.GetByTaskId(tid)
@@ -962,6 +969,8 @@ func (env *Environment) runTasksAsHooks(hooksToTrigger task.Tasks) (errorMap map
 
 	err := env.hookHandlerF(hooksToTrigger)
 	if err != nil {
+		close(quitCh) // nothing was triggered: stop the collector before touching its maps
+		<-doneCh
 		for _, h := range hooksToTrigger {
 			errorMap[h] = err
 			timer, ok := hookTimers[h.GetTaskId()]
